@@ -176,6 +176,7 @@ Definition kll_dec (kind : Z) (bytes : list Z) : option kll :=
 (* ---------- line protocol: the KLL operations of KllDefs plus the codec operations ---------- *)
 (*   20 r        : R = serialize(r) (bytes)
      21 r r2     : r := deserialize(serialize(r2))  (r2 keeps its ghost log; R = 1, or -1 when the decoder refuses)
+     23 r r2     : r.merge(r2) without ghost log (deep-level histories of C07, family klldeep)
      22 r kind bytes: r := deserialize(bytes) as a sketch of item kind [kind]; ghost log empty (the oracle does not use it) *)
 Definition cstep (s : st) (o e : line) : st * outline :=
   match o with
@@ -202,6 +203,18 @@ Definition cstep (s : st) (o e : line) : st * outline :=
         | None => (s, (refused, []))
         end
       else (s, (refused, []))
+  | 23 :: r :: r2 :: _ =>
+      (* r.merge(r2) WITHOUT extending the ghost log: for the deep-level histories (a sketch merged with a copy of itself
+         28..36 times: n doubles every time, the list of all given items cannot be kept; the oracle tracks n) *)
+      match reg_get s r, reg_get s r2 with
+      | Some g, Some g2 =>
+          if (r =? r2) || negb (r_kind g =? r_kind g2) then (s, (refused, [])) else
+          match replay (merge (r_sk g) (r_sk g2)) e with
+          | Some (sk, []) => (reg_set s r (mkreg (r_kind g) sk []), (ok, []))
+          | _ => (s, ([-3], []))
+          end
+      | _, _ => (s, (refused, []))
+      end
   | _ => step s o e
   end.
 
